@@ -24,6 +24,7 @@ META = {
 META["claim"] += " " + "Also: status tokens that merely begin with 101, interim 1xx heads carrying the upgrade headers, a required header's text smuggled into an over-long unrelated line at power-of-two offsets, and the wait for the response ended from outside (KeyboardInterrupt) at every byte."
 META["claim"] += " " + 'Round 4: offered subprotocols as list, tuple, iterator and generator (one-shot iterables judged in the reject direction only).'
 META["claim"] += " " + 'Round 5: the right accept value with characters a lenient base64 decoder skips (. - blank quotes), a suffix after the padding, doubled, extra padding, folded; Upgrade / Connection tokens broken across a continuation line.'
+META["claim"] += " " + "Rounds 6-7: casefold look-alikes, negative limits; a second status line inside the header block (first line 403/404/200/500/400/0); required headers that exist only behind VT, FF, FS, GS, RS, NEL, U+2028, U+2029, a lone CR or NUL inside another header's value."
 
 STATUSES = [100, 101, 101, 101, 101, 200, 204, 300, 304, 400, 401, 403, 404, 426, 500, 503, 999, "1015", "1010", "101x", "0101", "101.0", "10", "1101", "102", "103"]
 UPGRADE = [("websocket", True), ("WebSocket", True), ("websocket, foo", True), ("foo,websocket", True), ("  websocket  ", True),
